@@ -234,12 +234,17 @@ class FatIO(io.RawIOBase):
                 # Always keep at least one cluster allocated
                 num_clusters = max(1, self.fs.calc_num_clusters(size))
                 i = 0
+                last_cluster = None
                 for c in self.fs.get_cluster_chain(
                         self.dir_entry.get_cluster()):
                     i += 1
                     if i <= num_clusters:
+                        last_cluster = c
                         continue
                     self.fs.free_cluster_chain(c)
+                    # Terminate the remaining part of the cluster chain
+                    self.fs.fat[last_cluster] = self.fs.FAT_CLUSTER_VALUES[
+                        self.fs.fat_type]["END_OF_CLUSTER_MAX"]
                     self.fs.flush_fat()
                     break
 
